@@ -20,7 +20,7 @@ def shape_lease_anchored_at_observation : Bool := true
 def shape_lease_clamped_at_observation : Bool := true
 def shape_notecut_after_each_cut : Bool := true
 def shape_observed_before_validate : Bool := true
-def shape_provisional_bounded_by_cut : Bool := false
+def shape_provisional_bounded_by_cut : Bool := true
 def shape_seed_min : Bool := true
 def shape_setuntil_from_mincut : Bool := true
 def shape_single_clock_read : Bool := true
